@@ -6,7 +6,7 @@ import itertools
 
 from mc import pool, seams, factory_engine as F
 
-CHARS = ["a", ",", " ", "[", "]", "é", "b"]
+CHARS = ["a", ",", " ", "[", "]", "é", "b", "\"", "\\"]
 
 
 def values(maxlen):
@@ -16,7 +16,14 @@ def values(maxlen):
             v = "".join(tup)
             if v != v.strip():
                 continue  # values surrounded by white space are not in the claim's alphabet
+            if v.startswith('"'):
+                continue  # taken by the factory as already quoted (the exclusion stated with C06)
             out.append(v)
+    # long values: every length 2^k - 1, 2^k, 2^k + 1
+    unit = 'a, ]b["é\\'
+    for k in range(5, 11 if maxlen <= 3 else 15):
+        for L in (2 ** k - 1, 2 ** k, 2 ** k + 1):
+            out.append((unit * (L // len(unit) + 1))[:L].rstrip())
     return out + ["user@example.org", "INBOX.Lists, misc", "a, b", "[x]", "x]y[", "été,hiver"]
 
 
